@@ -69,7 +69,9 @@ class IntList(MetaHandlerGenerator):
         return v in self.elements
 
     def __class_getitem__(cls, args):
-        return IntList(*args)
+        # IntList[[a, b, c]] hands the list over as it is, IntList[a, b, c] a tuple, IntList[a] the bare element: the
+        # refinement takes ONE argument, the collection of its options
+        return IntList(args if isinstance(args, list) else list(args) if isinstance(args, tuple) else [args])
 
     def __repr__(self):
         return f"[{self.elements}]"
